@@ -183,7 +183,7 @@ def run_fresh(binpath, ctx, i, n):
     return res
 
 
-def collect(ctx, n_quick=450, n_thorough=6000):
+def collect(ctx, n_quick=450, n_thorough=4000):
     res = vlib.Result()
     binpath = os.environ.get("VERIF_ENGINE_BIN")
     if binpath:
@@ -235,7 +235,7 @@ def collect(ctx, n_quick=450, n_thorough=6000):
         if not ok:
             res.disagreements.append({"harness-error": out[-2000:]})
             return res, []
-    fresh = vlib.shard_map(lambda i: run_fresh(cbin, ctx, i, 150 if ctx.quick() else 2500), shards, ctx.jobs)
+    fresh = vlib.shard_map(lambda i: run_fresh(cbin, ctx, i, 150 if ctx.quick() else 1500), shards, ctx.jobs)
     fd = {}
     for f in fresh:
         if "error" in f:
